@@ -110,10 +110,7 @@ func (pcounter *LogProcessCounterSet) RegisterCustomCounter(label string) func(l
 func (pcounter *LogProcessCounterSet) SelectMetricKeySet(record *LogRecord) *LogInputCounterSet {
 	tempKeys := pcounter.metricKeyExtractor.Extract(record)
 
-	tempMergedKey := pcounter.mergeKeyBuffer
-	for _, tkey := range tempKeys {
-		tempMergedKey = append(tempMergedKey, tkey...)
-	}
+	tempMergedKey := util.AppendMergedKey(pcounter.mergeKeyBuffer, tempKeys)
 	pcounter.mergeKeyBuffer = tempMergedKey[:0]
 
 	// try to get existing counter by temp key, no new key string is created here
